@@ -708,20 +708,28 @@ func evalTreeRace(e *ev.Env, ts *treeSpec, reqs []reqSpec, cfg evalCfg, workers 
 // startDirect builds the tree and runs fiber's startup process. A panic there (observed for
 // sub-apps mounted at "/" inside a mounted sub-app, map-order dependent) is outside C08: it is
 // counted and the tree skipped.
-func startDirect(e *ev.Env, ts *treeSpec, rec *recorder) (d *drive.Direct) {
-	defer func() {
-		if r := recover(); r != nil {
-			d = nil
-			e.Stat("startup_panics_outside_property", 1)
-			e.Sample("startup-panic", map[string]any{"tree": ts.describe(), "panic": fmt.Sprint(r)})
-		}
-	}()
+func startDirect(e *ev.Env, ts *treeSpec, rec *recorder) *drive.Direct {
 	host, target := ts, 0
 	if ts.host != nil {
 		host, target = ts.host, ts.orig[0]
 	}
+	// A panic while the tree is put together (Use / Group / mount calls) is not guarded: the
+	// process dies and the driver attributes it to this case.
 	apps := build(host, rec)
 	e.Stat("builds", 1)
+	return startApps(e, host, apps, target, rec)
+}
+
+// startApps runs the start-up process of the app(s) that are served. A panic there is
+// outside C08: it is counted and the tree skipped.
+func startApps(e *ev.Env, host *treeSpec, apps []*fiber.App, target int, rec *recorder) (d *drive.Direct) {
+	defer func() {
+		if r := recover(); r != nil {
+			d = nil
+			e.Stat("startup_panics_outside_property", 1)
+			e.Sample("startup-panic", map[string]any{"tree": host.describe(), "panic": fmt.Sprint(r)})
+		}
+	}()
 	if sub := host.ServeSub; sub > 0 {
 		// the mounted app is also started on its own, before or after the root; the one
 		// started first serves a request before the other is started
